@@ -29,6 +29,14 @@ def locals_prog(m, d):
             f"fn main() {{ println(r({d})); }}\n")
 
 
+def stackpeak_prog(d, iters, extra):
+    e = "sq"
+    for k in range(d, 0, -1):
+        e = f"{k} + ({e})"
+    pad = " ".join(f"let p{j} = i + {j};" for j in range(extra))
+    return f"fn main() {{ let acc = 0; let i = 0; while i < {iters} {{ i += 1; {pad} let sq = i * i; acc = {e}; }} println(acc); }}\n"
+
+
 def loop_prog(k, body):
     return (f"fn f(a: int) -> int {{ a + 1 }}\nfn g(a: int) -> int {{ if a < 0 {{ throw(\"neg\"); }}; 1 + f(a) }}\nfn h(n: int) -> int {{ f(if n >= 0 {{ return n; }} else {{ 0 }}) }}\nfn main() {{ let s = 0; let l = [1, 2, 3]; let i = 0;\n"
             f"  while i < {k} {{ i += 1; {body} }}\n  println(s, i); }}\n")
@@ -71,6 +79,12 @@ def cases(ctx):
     for m in ([3, 5] + ([1, 2, 8] if thorough else [])):
         for mem in range(40, 40 + 2 * (m + 3) + 2):
             out.append(("memsweep", (1000, 100000, mem), locals_prog(m, 100000), {"locals": m, "limit": mem, "sweep": 1}))
+    # a loop whose operand peak is known by construction (d pending left operands + 1) run with the operand-stack limit set
+    # EXACTLY to the peak: within the limit, never stopped (bodies of several lengths so that a poll meets the full stack)
+    for d in ([2, 4, 6] + ([3, 8, 12] if thorough else [])):
+        for extra in (0, 1, 2):
+            for slack in (0, 1):
+                out.append(("stackpeak", (100, d + 1 + slack, 10000), stackpeak_prog(d, 3000, extra), {"depth": d, "pad": extra, "limit": d + 1 + slack}))
     for k in ([300, 5000] + ([50000] if thorough else [])):
         for body in LOOP_BODIES:
             out.append(("loop", (100, 500, 10000), loop_prog(k, body), {"iterations": k}))
@@ -135,6 +149,8 @@ def run(ctx):
                 want = "OK"
             elif kind == "memsweep":
                 want = "OutOfMemoryError"
+            elif kind == "stackpeak":
+                want = "OK"
             got = "OK" if vm["cls"] == "OK" else vm.get("kind")
             if want and got != want:
                 ctx.violation(dict(rep, vm=vm["raw"][:400]), f"C09 {kind} {info} under {lim}: expected {want}, the VM answered {got}")
